@@ -27,7 +27,7 @@ use crate::{
 };
 
 pub fn domains() -> Vec<(f64, f64)> {
-    vec![(-1.0, 1.0), (0.0, 1.0), (-5.0, 5.0), (3.0, 7.0), (-1e6, 1e6), (1e-3, 2e-3), (-1e-300, 1e-300)]
+    vec![(-1.0, 1.0), (0.0, 1.0), (-5.0, 5.0), (3.0, 7.0), (-1e6, 1e6), (1e-3, 2e-3), (-1e-300, 1e-300), (5.0, 6.0), (-8.0, -7.0), (1.0, 3.0), (10.0, 20.0)]
 }
 
 // ------------------------------------------------------------------------------------------------
@@ -398,6 +398,14 @@ fn bound_cases(seeds: u64, base_seed: u64) -> Vec<BoundCase> {
             for x in [1e300, -1e300, f64::MAX, -f64::MAX, 1e100, -1e17] {
                 out.push(BoundCase { op, coords: vec![(Fb::of(-1.0), Fb::of(1.0), Fb::of(x)), (Fb::of(3.0), Fb::of(7.0), Fb::of(-x))], seed: 1 });
             }
+            // dimensions of equal width at different positions next to each other, the first inside or outside
+            for first in [0.5, 1.5, -0.25] {
+                for (x2, x3) in [(5.5, -7.5), (6.5, -7.5), (5.5, -8.5), (4.0, -6.0)] {
+                    for seed in 0..3 {
+                        out.push(BoundCase { op, coords: vec![(Fb::of(0.0), Fb::of(1.0), Fb::of(first)), (Fb::of(5.0), Fb::of(6.0), Fb::of(x2)), (Fb::of(-8.0), Fb::of(-7.0), Fb::of(x3)), (Fb::of(0.0), Fb::of(1.0), Fb::of(0.25))], seed });
+                    }
+                }
+            }
             // ... also relative to narrow domains, where distance / width exceeds the largest finite number
             for (a, b) in [(0.0, 0.1), (1e-3, 2e-3), (-1e-3, 1e-3), (-1e-300, 1e-300), (0.25, 0.5)] {
                 for x in [1e308, -1e308, 1e306, f64::MAX, -f64::MAX, 1e300, -1e200, 1e17] {
@@ -433,7 +441,16 @@ fn bound_strategy() -> impl Strategy<Value = BoundCase> {
 fn init_strategy() -> impl Strategy<Value = InitCase> {
     let dom = proptest::sample::select(domains()).prop_map(|(a, b)| (Fb::of(a), Fb::of(b)));
     let rand_dom = (-1e3f64..1e3, 1e-6f64..1e3).prop_map(|(a, w)| (Fb::of(a), Fb::of(a + w)));
+    let dom2 = proptest::sample::select(domains()).prop_map(|(a, b)| (Fb::of(a), Fb::of(b)));
     prop_oneof![
+        // many samples (>= 1024 coordinates) over domains whose dimensions differ, also with equal first and last dimension
+        1 => (prop_oneof![Just(256u32), Just(300), Just(1100), Just(2048)], proptest::collection::vec(dom2, 1..6), any::<bool>(), any::<u64>(), any::<bool>()).prop_map(|(size, mut domain, wrap, seed, functional)| {
+            if wrap {
+                let first = domain[0];
+                domain.push(first);
+            }
+            InitCase::Spread { size, domain, seed, functional }
+        }),
         4 => (0u32..21, proptest::collection::vec(prop_oneof![3 => dom, 1 => rand_dom], 0..9), any::<u64>(), any::<bool>()).prop_map(|(size, domain, seed, functional)| InitCase::Spread { size, domain, seed, functional }),
         3 => (0u32..21, 0usize..9, any::<u64>(), any::<bool>()).prop_map(|(size, dim, seed, functional)| InitCase::Permutation { size, dim, seed, functional }),
         3 => (0u32..21, 0usize..9, prop_oneof![Just(0.0), Just(1.0), Just(0.5), 0.0f64..=1.0].prop_map(Fb::of), any::<u64>(), any::<bool>()).prop_map(|(size, dim, p, seed, functional)| InitCase::Bitstring { size, dim, p, seed, functional }),
